@@ -74,6 +74,18 @@ def handle (case obs : List String) : String × String :=
     | some bs =>
       (toString (Code.fromBytes bs).num,
        verdict [("code-table", join obs == toString (Spec.Status.readCode bs))])
+  | ["u8", cs] =>
+    match nat? cs with
+    | none => bad
+    | some c =>
+      let model := if Utf8.isScalar c then hex (Utf8.encodeScalar c) else "none"
+      let v := match obs with
+        | ["none"] => [("rust-rejects-only-non-scalars", !Utf8.isScalar c)]
+        | [o] => match unhex o with
+          | some b => [("rust-char-encoding-is-valid-utf8", Utf8.valid b), ("rust-accepts-only-scalars", Utf8.isScalar c)]
+          | none => [("observed-parses", false)]
+        | _ => [("observed-parses", false)]
+      (model, verdict v)
   | ["codei", sgn, mag] =>
     match nat? mag with
     | none => bad
